@@ -48,6 +48,9 @@ pub fn c13_pins() -> Vec<(&'static str, &'static str)> {
         ("goto_undefined_label", "unsigned char a; void main() { a = 1; goto nowhere; }"),
         ("goto_label_named_in_asm_text_only", "unsigned char i; void main() { asm(\"loop: DEC i\", 2); if (i) goto loop; }"),
         ("goto_label_as_substring_of_asm_text", "unsigned char i; void main() { asm(\"LDA #1 ; see .done below\", 2); asm(\"STA i ;xdone\", 2); goto done; }"),
+        ("duplicate_user_label", "unsigned char x, y; void main() { l1: x = 1; l1: y = 2; if (x) goto l1; }"),
+        ("user_label_named_like_a_generated_one", "unsigned char x, i; void main() { for (i = 0; i != 2; i++) x++; forend1: x = 1; if (x == 9) goto forend1; }"),
+        ("address_of_function_never_called", "char *p; unsigned char r; void f() { r = 1; } void main() { p = f; }"),
         ("store_to_array_name", "unsigned char tab[4]; void main() { tab = 5; tab++; }"),
     ]
 }
@@ -456,7 +459,7 @@ fn c04_source(kind: &str, idx: u64, src: &str, opts_base: &Opts, levels: &[u8]) 
             if reported != true_sz {
                 res.class = "size mismatch".into();
                 res.violate(
-                    &format!("C04:{}:{}", kind, idx),
+                    &if kind == "pin" { format!("pin:{}", c04_src_pins()[idx as usize].0) } else { format!("C04:{}:{}", kind, idx) },
                     &format!(
                         "C04 -O{}: function {} reports size_bytes() = {} but assembles to {} bytes\n--- source\n{}",
                         lvl, name, reported, true_sz, src
@@ -475,6 +478,16 @@ fn c04_source(kind: &str, idx: u64, src: &str, opts_base: &Opts, levels: &[u8]) 
 
 pub fn c04_pins() -> Vec<Pin> {
     vec![]
+}
+
+/// sources whose function sizes are checked like those of the corpus
+pub fn c04_src_pins() -> Vec<(&'static str, &'static str)> {
+    vec![
+        (
+            "memory_class_of_second_declarator",
+            "char * const HI = 0x280, * const LO = 0x81;\nunsigned char r;\nvoid main() { *LO = 1; r = *LO; *HI = r; X = *LO; *LO = X; }\n",
+        ),
+    ]
 }
 
 impl Monitor for C04 {
@@ -496,9 +509,18 @@ impl Monitor for C04 {
         vec!["asm() statements of the corpus carry a marker comment and their declared size is read back from the source text".into()]
     }
     fn plan(&self, tier: &Tier, seed: u64) -> Vec<Chunk> {
-        plan_corpus(tier, seed, "C04", 10_000, 100_000)
+        let np = c04_src_pins().len() as u64;
+        let mut v = split_chunks("pin", 0, np, np, 1);
+        v.extend(plan_corpus(tier, seed, "C04", 10_000, 100_000));
+        v
     }
     fn run_case(&self, kind: &str, idx: u64) -> CaseResult {
+        if kind == "pin" {
+            let (name, src) = c04_src_pins()[idx as usize];
+            let mut r = c04_source(kind, idx, src, &Opts::default(), &[0, 1]);
+            r.sample = Some(json!({"kind": "pin", "name": name, "source": src, "class": r.class}));
+            return r;
+        }
         let (p, o) = corpus_program(kind, idx);
         let src = print_program(&p);
         let mut r = c04_source(kind, idx, &src, &o, &[0, 1]);
